@@ -1,2 +1,5 @@
 import GtirbModel.Util
 import GtirbModel.TypeName
+import GtirbModel.Codec
+import GtirbModel.CodecTyping
+import GtirbModel.CodecDriver
